@@ -3,7 +3,7 @@ from fractions import Fraction
 
 import numpy as np
 
-from .. import cards, run
+from .. import cards, nfref, run
 
 PROP = "C09"
 LEVEL = "exploration"
@@ -19,6 +19,7 @@ RULE = (
 )
 ASSUMPTIONS = ["'+-1 ulp' cases only for exactly representable constructions; random cases keep |W2/4m2-1| >= 1e-9"]
 M2 = {"charm": "mc", "bottom": "mb", "top": "mt"}
+MKEY = {4: "mc", 5: "mb", 6: "mt"}
 
 
 def budget(tier):
@@ -27,7 +28,7 @@ def budget(tier):
 
 def floor(tier):
     return dict(min_conclusive=40 if tier == "quick" else 800, min_nontrivial=20 if tier == "quick" else 60,
-                classes=["at", "below", "above", "x-ulp", "q2-ulp", "cc", "chi>=1", "integrand", "missing-channel"], probes=["collect_elems", "convolve_vector", "integrand_evals"], min_compared=500)  # fmt: skip
+                classes=["at", "below", "above", "x-ulp", "q2-ulp", "cc", "chi>=1", "integrand", "missing-channel", "cc-twin", "closed-vs-absent"], probes=["collect_elems", "convolve_vector", "integrand_evals"], min_compared=500)  # fmt: skip
 
 
 def cases(tier, rng):
@@ -71,6 +72,10 @@ def cases(tier, rng):
                 x = float(rng.uniform(0.05, 0.95))
                 q2 = float(cards.logu(rng, 0.5, 200.0))
                 pts.append(dict(x=x, Q2=q2, cls="cc"))
+            # twins at the same Q2 (same lambda) but another Bjorken x: the coefficient may depend on the kinematics only through lambda and
+            # the variable it is convolved in, so the kernels of the two points must be the very same functions
+            for t_ in range(min(2, len(pts))):
+                pts.append(dict(x=float(pts[t_]["x"] * rng.uniform(0.5, 0.9)), Q2=pts[t_]["Q2"], cls="cc", twin_of=t_))
             pts.append(dict(x=0.7, Q2=float(m * m), cls="chi>=1"))
             pts.append(dict(x=0.5, Q2=float(m * m), cls="chi>=1"))  # chi == 1 exactly
         proc = "CC" if mode == "cc" else cards.pick(rng, ["EM", "NC"])
@@ -109,14 +114,29 @@ def run_case(case):
         cf.Combiner.collect_elems = orig_ce
         conv.convolve_vector = orig_cv
     probes = dict(collect_elems=len(rec), convolve_vector=len(cv), integrand_evals=0)
-    light_pair = None
+    light_pair = {}
     if case["mode"] != "cc" and th["PTODIS"] >= 2 and case["kind"] in ("F2", "FL"):
         # the heavy pair radiated off a light quark ('missing' channel, O(a_s^2)) lives in <kind>_light: at/below the hadronic
         # threshold it must vanish, i.e. <kind>_light must not notice a 50% heavier quark (the light kernels are mass independent)
         lname = f"{case['kind']}_light"
         obl = cards.observables({lname: pts}, xgrid=g, deg=3, **case["obs"])
-        th_heavier = dict(th, mc=th["mc"] * 1.5, mb=th["mb"] * 1.5, mt=th["mt"] * 1.5)
-        light_pair = (yad.run_yadism(th, obl)[lname], yad.run_yadism(th_heavier, obl)[lname])
+        # (per level: with several massive quarks - FFNS with NfFF=3 or 4 - every quark whose own threshold is still closed must stay
+        # invisible, whatever lighter massive quark is already open: one variant per massive quark L, heavier masses for L and above)
+        mq_ = nfref.massive_quarks(th)
+        base_ = yad.run_yadism(th, obl)[lname]
+        light_pair = {}
+        for L_ in mq_:
+            thv = dict(th)
+            for h_ in mq_:
+                if h_ >= L_:
+                    thv[MKEY[h_]] = th[MKEY[h_]] * 1.5
+            light_pair[L_] = (base_, yad.run_yadism(thv, obl)[lname])
+        # ... and a closed quark must count like an absent one: FFNS with several massive quarks against the same card in FONLL-FFNS,
+        # where only the lightest of them exists as a massive quark (a closed quark served with another quark's mass is invisible to
+        # the mass variation above)
+        absent_ref = None
+        if th["FNS"] == "FFNS" and len(mq_) >= 2:
+            absent_ref = yad.run_yadism(dict(th, FNS="FONLL-FFNS"), obl)[lname]
     m = th[M2[case["flavour"]]]
     hq = {"charm": 4, "bottom": 5, "top": 6}[case["flavour"]]
     viol, nontrivial, classes = [], set(), set()
@@ -139,14 +159,27 @@ def run_case(case):
                     viol.append(dict(sig=f"pair-threshold|{case['kind']}|{p['cls']}", what=f"{name} {th['FNS']} PTO={th['PTODIS']} m={m!r} x={p['x']!r} Q2={p['Q2']!r}: W2-4m2 = {float(W2-4*m2x):.3g} <= 0 but order {run.key(key)} has a non-zero pair-production entry {val[others][i,j]:.6g} (row pid={cards.PIDS[others[i]]})",
                                      detail=dict(point=p, m=m)))  # fmt: skip
                     break
-            if light_pair is not None:
-                ra, rb = light_pair[0][case["points"].index(p)], light_pair[1][case["points"].index(p)]
-                eq, why = run.same_bits(ra, rb)
-                compared += 1
-                classes.add("missing-channel")
-                if below and not eq:
-                    viol.append(dict(sig=f"pair-threshold-missing|{case['kind']}|{p['cls']}", what=f"{case['kind']}_light {th['FNS']} PTO={th['PTODIS']} m={m!r} x={p['x']!r} Q2={p['Q2']!r}: W2-4m2 = {float(W2-4*m2x):.3g} <= 0 but the result depends on the heavy-quark mass (pair radiation off light quarks contributes below threshold): {why}"))
-                if (not below) and float(W2 / (4 * m2x)) > 1.5 and not eq:
+            if light_pair:
+                ip_ = case["points"].index(p)
+                # the lightest massive quark whose pair threshold is still closed at this point (masses are ordered)
+                closed = [h_ for h_ in sorted(light_pair) if W2 <= 4 * Fraction(th[MKEY[h_]]) ** 2]
+                if closed:
+                    L_ = closed[0]
+                    eq, why = run.same_bits(light_pair[L_][0][ip_], light_pair[L_][1][ip_])
+                    compared += 1
+                    classes.add("missing-channel")
+                    if L_ != hq:
+                        classes.add("missing-channel-upper")
+                    if not eq:
+                        viol.append(dict(sig=f"pair-threshold-missing|{case['kind']}|{p['cls'] if L_ == hq else 'upper-quark'}", what=f"{case['kind']}_light {th['FNS']} NfFF={th['NfFF']} PTO={th['PTODIS']} x={p['x']!r} Q2={p['Q2']!r}: W2 = {float(W2):.6g} <= 4 m^2 = {4*th[MKEY[L_]]**2:.6g} of quark {L_} but the result changes when the masses of the quarks {[h_ for h_ in sorted(light_pair) if h_ >= L_]} are raised by 50% (pair radiation off light quarks contributes below its threshold): {why}"))
+                if absent_ref is not None and W2 <= 4 * Fraction(th[MKEY[sorted(light_pair)[1]]]) ** 2:
+                    eqa, whya = run.same_bits(light_pair[min(light_pair)][0][ip_], absent_ref[ip_])
+                    compared += 1
+                    classes.add("closed-vs-absent")
+                    if not eqa:
+                        viol.append(dict(sig=f"pair-threshold-missing|{case['kind']}|closed-vs-absent", what=f"{case['kind']}_light FFNS NfFF={th['NfFF']} PTO={th['PTODIS']} x={p['x']!r} Q2={p['Q2']!r}: W2 = {float(W2):.6g} is below the pair threshold of every massive quark but the lightest, yet the result differs from the same card with those quarks absent (FONLL-FFNS, NfFF={th['NfFF']}): {whya}"))
+                eq0, _ = run.same_bits(light_pair[min(light_pair)][0][ip_], light_pair[min(light_pair)][1][ip_])
+                if (not below) and float(W2 / (4 * m2x)) > 1.5 and not eq0:
                     any_above_nonzero = True
             above_clear = (not below) and float(W2 / (4 * m2x)) > 1.05
             if above_clear:
@@ -206,6 +239,33 @@ def run_case(case):
                     any_above_nonzero = True
             if sample is None:
                 sample = dict(obs=name, m=m, x=p["x"], Q2=p["Q2"], chi=float(chi), convolution_points_seen=sorted(seen_pts)[:3])
+            if "twin_of" in p:
+                q = case["points"][p["twin_of"]]
+                ea = [k for k in rec.get((q["x"], q["Q2"]), []) if type(k.coeff).__module__.split(".")[2] == "heavy"]
+                eb = [k for k in elems if type(k.coeff).__module__.split(".")[2] == "heavy"]
+                compared += 1
+                if [type(k.coeff).__qualname__ for k in ea] != [type(k.coeff).__qualname__ for k in eb]:
+                    if float(chi) < 1 and float(Fraction(q["x"]) * (1 + m2x / Fraction(q["Q2"]))) < 1:
+                        viol.append(dict(sig="cc-twin-kernels", what=f"{name}: the points x={q['x']} and x={p['x']} at the same Q2={p['Q2']} are served by different kernel lists"))
+                else:
+                    for ka, kb in zip(ea, eb):
+                        for o in range(th["PTODIS"] + 1):
+                            ra, rb = (ka.coeff[o]() if ka.has_order(o) else None), (kb.coeff[o]() if kb.has_order(o) else None)
+                            if ra is None or rb is None:
+                                continue
+                            for part, pts_ in (("reg", (0.31, 0.62, 0.93)), ("sing", (0.31, 0.62, 0.93)), ("loc", (0.23, 0.55, 0.87))):
+                                fa, fb = getattr(ra, part), getattr(rb, part)
+                                if fa is None or fb is None:
+                                    continue
+                                for z in pts_:
+                                    va, vb = fa(z, ra.args[part]), fb(z, rb.args[part])
+                                    compared += 1
+                                    classes.add("cc-twin")
+                                    if not (va == vb or (np.isnan(va) and np.isnan(vb))):
+                                        viol.append(dict(sig=f"cc-depends-on-x|{type(ka.coeff).__module__.split('.')[3]}|{type(ka.coeff).__name__}|o{o}|{part}",
+                                                         what=f"{type(ka.coeff).__module__.split('.')[3]}.{type(ka.coeff).__name__} order {o}: the {part} part at argument {z} is {va!r} for Bjorken x={q['x']!r} and {vb!r} for x={p['x']!r} at the same Q2={p['Q2']!r}, m={m!r}: "
+                                                              "the coefficient depends on x other than through the slow-rescaling variable it is convolved in"))  # fmt: skip
+                                        break
     if any_above_nonzero:
         for p in case["points"]:
             nontrivial.add(f"{case['mode']}|{case['kind']}|{case['flavour']}|{p['cls']}|pto{th['PTODIS']}")
